@@ -105,6 +105,34 @@ type ackProxy struct {
 	w     *World
 	node  *Node
 	inner ack.Queue
+	// swapNext: the next registration reaches the queue only after the one that follows it (two goroutines arming at
+	// the same time: the order in which their calls land is not the order of their deadlines)
+	swapNext bool
+	held     *heldInsert
+}
+
+type heldInsert struct {
+	prefix   string
+	pkt      packet.Packet
+	deadline time.Time
+	cb       ack.Callback
+}
+
+// SwapNextArming makes the next two registrations on this node reach the queue in the opposite order.
+func (n *Node) SwapNextArming() {
+	n.w.mu.Lock()
+	n.Acks.swapNext = true
+	n.w.mu.Unlock()
+}
+
+func (q *ackProxy) flushHeld() {
+	q.w.mu.Lock()
+	h := q.held
+	q.held = nil
+	q.w.mu.Unlock()
+	if h != nil {
+		q.inner.Insert(h.prefix, h.pkt, h.deadline, h.cb)
+	}
 }
 
 func midOf(p packet.Packet) int32 {
@@ -115,7 +143,17 @@ func midOf(p packet.Packet) int32 {
 }
 
 func (q *ackProxy) Insert(prefix string, pkt packet.Packet, deadline time.Time, cb ack.Callback) error {
+	q.w.mu.Lock()
+	if q.swapNext {
+		q.swapNext = false
+		q.held = &heldInsert{prefix, pkt, deadline, cb}
+		q.node.AckInserts = append(q.node.AckInserts, AckInsert{Seq: q.w.nextSeq(), At: time.Now(), Session: prefix, Type: pkt.Type(), ID: midOf(pkt), Deadline: deadline})
+		q.w.mu.Unlock()
+		return nil
+	}
+	q.w.mu.Unlock()
 	err := q.inner.Insert(prefix, pkt, deadline, cb)
+	q.flushHeld()
 	es := ""
 	if err != nil {
 		es = err.Error()
@@ -125,8 +163,14 @@ func (q *ackProxy) Insert(prefix string, pkt packet.Packet, deadline time.Time, 
 	q.w.mu.Unlock()
 	return err
 }
-func (q *ackProxy) Ack(prefix string, pkt packet.Packet) error { return q.inner.Ack(prefix, pkt) }
-func (q *ackProxy) Expire(now time.Time)                       { q.inner.Expire(now) }
+func (q *ackProxy) Ack(prefix string, pkt packet.Packet) error {
+	q.flushHeld()
+	return q.inner.Ack(prefix, pkt)
+}
+func (q *ackProxy) Expire(now time.Time) {
+	q.flushHeld()
+	q.inner.Expire(now)
+}
 
 // ---- taps (recording no-op) ----
 
@@ -197,8 +241,10 @@ func (t *harnessTransport) Call(id uint64, f func(*grpc.ClientConn) error) error
 			t.from.cancel() // the node is being stopped while this call is in flight
 		}
 		err = context.Canceled
-	case blocked:
-		err = errors.New("injected: peer unreachable")
+	case blocked && target != nil && !target.Dead:
+		// a real connection whose transport cannot be established (connection refused): the call fails, or does
+		// whatever the production call options make it do
+		err = f(t.from.dialRefused(target))
 	case target == nil || target.Dead:
 		err = errors.New("peer is gone")
 	default:
@@ -231,13 +277,35 @@ type Node struct {
 
 	lis    *bufconn.Listener
 	srv    *grpc.Server
-	conns  map[uint64]*grpc.ClientConn
-	dialMu chanMutex
+	conns   map[uint64]*grpc.ClientConn
+	refused map[uint64]*grpc.ClientConn
+	dialMu  chanMutex
 	wg     sync.WaitGroup
 
 	Consumed   []uint64
 	AckInserts []AckInsert
 	Dead       bool
+}
+
+// dialRefused returns a client connection to target whose every connection attempt is refused.
+func (n *Node) dialRefused(target *Node) *grpc.ClientConn {
+	n.dialMu.Lock()
+	defer n.dialMu.Unlock()
+	if c := n.refused[target.ID]; c != nil {
+		return c
+	}
+	opts := append(rpc.GRPCClientOptions("", "", "", true), grpc.WithContextDialer(func(ctx context.Context, _ string) (net.Conn, error) {
+		return nil, errors.New("injected: connection refused")
+	}))
+	c, err := grpc.Dial("bufnet-refused", opts...)
+	if err != nil {
+		panic(err)
+	}
+	if n.refused == nil {
+		n.refused = map[uint64]*grpc.ClientConn{}
+	}
+	n.refused[target.ID] = c
+	return c
 }
 
 func (n *Node) dial(target *Node) *grpc.ClientConn {
@@ -526,6 +594,9 @@ func (n *Node) stop() {
 	n.cancel()
 	n.cancel = nil
 	for _, c := range n.conns {
+		c.Close()
+	}
+	for _, c := range n.refused {
 		c.Close()
 	}
 	n.srv.Stop()
